@@ -64,6 +64,48 @@ CHECKS = {
             "Trusted: the model in vf/props/C11.py (documented state machine; re-entrant "
             "next() may raise anything but must keep the current-thread pointer).",
             "3/C11"),
+    'C03': ("differential reference model: every expanded call vs an independent wrap-and-zip "
+            "expansion issuing only list-free calls, unit-creation counting by wrapping "
+            "_create_ugen_object, bytes-level comparison through tagged sinks (vf/scgf.py)",
+            "Runtime monitoring of ~1e5 (quick) / 1.4e6 (thorough) seeded calls over the 440+ "
+            "constructors discovered at run time to delegate to the generic expansion, "
+            "ChannelList operators/convenience methods and the output units.",
+            "Trusted: list-free calls define one channel; vf/c03_model.py; vf/scgf.py; the "
+            "run-time qualification probe that defines 'delegates directly'.",
+            "3/C03"),
+    'C04': ("reference layout model computed from the signature alone + tagged sinks in the "
+            "generated body; decoded bytes (parameter array, name table, control wiring, lags, "
+            "variants) and NRT score of SynthDef.__call__ compared with the model",
+            "Runtime monitoring of generated programs (1-4 wrapped functions, 0-40 parameters, "
+            "annotations, rates lists, tuple defaults, prepend, specs, variants) executed as "
+            "real functions by SynthDef.",
+            "Trusted: vf/model_controls.py, vf/scgf.py.",
+            "3/C04"),
+    'C12': ("icontract postconditions attached from the harness to 13 TempoClock methods and "
+            "setters + reference affine map / meter model replayed in lock step over histories "
+            "run by routines on the clock (NRT volume + RT shard)",
+            "Runtime monitoring of seeded tempo/etempo/beats/meter histories, millions of grid "
+            "queries and first wake-ups of play(quant) on real TempoClocks.",
+            "Trusted: vf/c12_model.py; tolerance 1e-9 relative + 1e-9 absolute on beats (+16 ulp "
+            "per re-basing); icontract 2.7.3 with the harness' own recursion guard.",
+            "3/C12"),
+    'C14': ("reference-model monitors + trace checker over decoded NRT scores: key-chain model, "
+            "expected /s_new and gate-off bundles attributed through unique tag controls, "
+            "timeline algebra for Pbind/Pmono/Ppar/Pchain/Pdur/Pdelta",
+            "Runtime monitoring of seeded key sets, play programs and pattern compositions "
+            "executed by the real library in NRT mode; every score decoded by vf/osc.py and "
+            "compared with the independent model.",
+            "Trusted: vf/model_events.py (SuperCollider documentation reading), vf/osc.py; "
+            "1e-9 relative, 2^-31 s timetags, one float32 ulp on raw values; inputs where "
+            "documentation and port comments disagree are excluded (listed in the module).",
+            "3/C14"),
+    'C19': ("independent envelope encoder as reference model + breakpoint predicates over the "
+            "real Env objects + EnvGen inputs decoded from definition bytes (vf/scgf.py)",
+            "Runtime monitoring of seeded envelope specifications, evaluation times and all 11 "
+            "standard constructors (called twice with the same argument objects).",
+            "Trusted: vf/model_env.py (server array layout, shape numbers, -99), vf/scgf.py; "
+            "generators restricted to each shape's documented domain.",
+            "3/C19"),
 }
 
 NOT_YET = "check not built yet in this session (work in progress); runtime monitoring is applicable"
